@@ -178,6 +178,10 @@ pub fn exec_un(name: &str, a: &BigDecimal) -> BigDecimal {
         "abs_ref" => a.to_ref().abs().to_owned(),
         "neg_dref" => a.to_ref().neg().to_owned(),
         "signum" => bigdecimal::num_traits::Signed::signum(a),
+        // Signed::is_positive / is_negative and Default, reported as the decimals 1 / 0 (and the default value)
+        "is_pos" => BigDecimal::from(bigdecimal::num_traits::Signed::is_positive(a) as u8),
+        "is_neg" => BigDecimal::from(bigdecimal::num_traits::Signed::is_negative(a) as u8),
+        "default_plus" => a + BigDecimal::default(),
         "abs_sub0" => bigdecimal::num_traits::Signed::abs_sub(a, &BigDecimal::from(0)),
         "double" => a.double(),
         "half" => a.half(),
@@ -320,7 +324,7 @@ pub fn generate(rng: &mut Rng, tier: &str, shard: usize, nshards: usize, out: &m
             }
         }
     }
-    let un = ["neg", "negref", "abs", "double", "half", "square", "cube", "abs_signed", "abs_ref", "neg_dref", "signum", "abs_sub0"];
+    let un = ["neg", "negref", "abs", "double", "half", "square", "cube", "abs_signed", "abs_ref", "neg_dref", "signum", "abs_sub0", "is_pos", "is_neg", "default_plus"];
     for name in un {
         for _ in 0..p.per_op {
             n += 1;
